@@ -24,6 +24,11 @@ CHECKS.update({
         text="Exploration. Generated graphs (IRIs with odd local names and non-ASCII, bnode trees/cycles/self-loops/unreferenced and multiply-referenced nodes, well-formed, shared-tail, extra-property, cyclic, ring-shaped and malformed rdf:List structures, literals over every recognised datatype, language tags, arbitrary Unicode, falsy values) are serialised with each of the 8 serializers under option combinations (base, bind_namespaces, user prefixes on nested namespaces) and parsed back; rv.iso (own bijection search, own literal key) must find the result isomorphic; serialisation must finish within a logical step budget and must not change the graph. Nine listed findings (Turtle decimal/double shorthand, several pretty-xml losses, JSON-LD unrooted cycles and malformed lists) are carved out by input predicates and replayed on every run.",
         note="RDF/XML family restricted to what XML 1.0 can express (predicates splitting into namespace+NCName, XML Char text). Literals come from the normalising constructor. HexTuples: plain == xsd:string only.",
         ref="DESIGN.md §3 C03"),
+    "C10": dict(
+        technique="runtime monitoring: update requests applied to the real container and to a reference dataset transformer (SPARQL 1.1 Update), post-states compared up to blank-node renaming",
+        text="Exploration. Generated requests of 1-4 operations (INSERT DATA, DELETE DATA, DELETE WHERE, DELETE/INSERT..WHERE with WITH, USING and GRAPH templates, CLEAR/DROP DEFAULT|NAMED|ALL|GRAPH, ADD/MOVE/COPY incl. source=target and missing graphs) run through Graph, ConjunctiveGraph and Dataset(default_union off/on) with the engine's default-graph-is-union switch on and off. The reference applies each operation to a name->set model: WHERE evaluated once on the pre-state by rv/model/sparqlref (reads of the default graph see the union iff switch and container say so; writes outside GRAPH go to the real default graph), all deletions before any insertion, template triples with unbound or illegal terms skipped, one fresh blank node per label per solution, operations in order. The post-state of every graph must be isomorphic to the model's. Templates are engineered so that what one solution inserts another deletes. One listed finding (USING leaves the named graphs visible) is carved out.",
+        note="Existence of empty graphs is not compared. SPARQL_LOAD_GRAPHS is switched off (no network). WHERE patterns come from the trigger-free fragment of C04.",
+        ref="DESIGN.md §3 C10"),
     "C11": dict(
         technique="runtime monitoring: differential of path evaluation (API and SPARQL) against a set-algebra reference over pairs; step budget on cyclic data; exhaustive small scope",
         text="Exploration. Generated path expressions to depth 4 (inverse, sequences of 2-4 steps, alternatives, * + ?, negated property sets, nested closures) on graphs of 1-10 triples with cycles, self-loops and literal objects incl. falsy ones are evaluated for all four bound/unbound combinations of the ends (ends from graph nodes, falsy literals, terms absent from the graph) through Graph.triples / subjects / objects and through SPARQL SELECT; the result set must equal the relation computed by structural recursion over a plain set of pairs (composition, union, converse, fixpoint closures, zero-length pairs over nodes(G) plus the bound ends); a top-level closure must be duplicate-free; every evaluation runs under a logical step budget. Exhaustive lane: 50+ path shapes of depth<=2 over every small graph on {a, b, 0}. One listed finding (negated set with an inverse member) is carved out.",
